@@ -2,9 +2,10 @@
 
 // Standalone reproductions of the C08 findings against the public API (see ../FINDINGS.md).
 // Run from a scratch module that requires github.com/tuneinsight/lattigo/v6 (replace => /repo):
-//   go run main.go          all recoverable cases
-//   go run main.go D1       fatal error: stack overflow
-//   go run main.go D6       fatal error: out of memory (run under ulimit -v)
+//
+//	go run main.go          all recoverable cases
+//	go run main.go D1       fatal error: stack overflow
+//	go run main.go D6       fatal error: out of memory (run under ulimit -v)
 package main
 
 import (
